@@ -77,6 +77,11 @@ def contract(self, name, args, res):
         ctx.violation('uc:%s-unit' % name, '%s returned %s which cannot be expressed in %s' % (name, res.units, unit))
         return
     mag = np.asarray(mag, dtype=float)
+    # ... and the number the user reads with .magnitude must be that very number (the docstrings tell users to read .magnitude)
+    raw = np.asarray(res.magnitude, dtype=float)
+    if raw.shape == mag.shape and not np.allclose(raw, mag, rtol=1e-9, atol=1e-9 * (273.15 if name == 'toCelcius' else 0.0)):
+        ctx.violation('uc:%s-unit' % name, '%s returns its value in %s, the documented unit is %s (.magnitude is off by the unit factor)' % (name, res.units, unit))
+        return
     if mag.shape != np.shape(ref):
         ctx.violation('uc:%s-shape' % name, '%s returned shape %s for an argument of shape %s' % (name, mag.shape, np.shape(ref)))
         return
